@@ -74,28 +74,28 @@ package storage
 //
 //@ inline func newCopyOptions
 //
-//@ func copyReadObject
+//@ func copyReadObject(ctx, readObject, to, toPath, copyExternalAndLocalPaths, atomic) (retErr)
 //@   property C15
 //@   modifies ghost.fail, ghost.wfail, ghost.sinkPaths, ghost.sinkBuckets, ghost.lastPutOptions
 //@   ensures  reported: ghost.fail && !old(ghost.fail) ==> retErr != nil
 //@   ensures  write-reported: ghost.wfail && !old(ghost.wfail) ==> retErr != nil
 //@   canary ensures retErr == nil
 //
-//@ func copyPath
+//@ func copyPath(ctx, from, fromPath, to, toPath, copyExternalAndLocalPaths, atomic) (retErr)
 //@   property C15
 //@   modifies ghost.fail, ghost.wfail, ghost.sinkPaths, ghost.sinkBuckets, ghost.lastPutOptions
 //@   ensures  reported: ghost.fail && !old(ghost.fail) ==> retErr != nil
 //@   ensures  write-reported: ghost.wfail && !old(ghost.wfail) ==> retErr != nil
 //@   canary ensures retErr == nil
 //
-//@ func CopyReader
+//@ func CopyReader(ctx, writeBucket, reader, path) (retErr)
 //@   property C15
 //@   modifies ghost.fail, ghost.wfail, ghost.sinkPaths, ghost.sinkBuckets, ghost.lastPutOptions
 //@   ensures  reported: ghost.fail && !old(ghost.fail) ==> retErr != nil
 //@   ensures  write-reported: ghost.wfail && !old(ghost.wfail) ==> retErr != nil
 //@   canary ensures retErr == nil
 //
-//@ func CopyReadObject
+//@ func CopyReadObject(ctx, writeBucket, readObject, options) (retErr)
 //@   property C15
 //@   modifies ghost.fail, ghost.wfail, ghost.sinkPaths, ghost.sinkBuckets, ghost.lastPutOptions, heap
 //@   ensures  reported: ghost.fail && !old(ghost.fail) ==> retErr != nil
@@ -103,7 +103,7 @@ package storage
 //@   loop 0 invariant ghost.fail ==> old(ghost.fail)
 //@   loop 0 invariant ghost.wfail ==> old(ghost.wfail)
 //
-//@ func CopyPath
+//@ func CopyPath(ctx, from, fromPath, to, toPath, options) (err)
 //@   property C15
 //@   modifies ghost.fail, ghost.wfail, ghost.sinkPaths, ghost.sinkBuckets, ghost.lastPutOptions, heap
 //@   ensures  reported: ghost.fail && !old(ghost.fail) ==> err != nil
@@ -155,7 +155,7 @@ package storage
 //@   ensures  reported: ghost.fail && !old(ghost.fail) ==> retErr != nil
 //@   canary ensures retErr == nil
 //
-//@ func PutPath
+//@ func PutPath(ctx, writeBucket, path, data, options) (retErr)
 //@   property C15 C09
 //@   ensures forwards-options: retErr == nil ==> ghost.lastPutOptions == options
 //@   ensures only-this-bucket: forall b ref :: b in ghost.sinkBuckets && !(b in old(ghost.sinkBuckets)) ==> b == writeBucket
@@ -164,13 +164,13 @@ package storage
 //@   ensures  write-reported: ghost.wfail && !old(ghost.wfail) ==> retErr != nil
 //@   canary ensures retErr == nil
 //
-//@ func ForReadObject
+//@ func ForReadObject(ctx, readBucket, path, f) (retErr)
 //@   property C15
 //@   modifies ghost.fail, ghost.wfail, ghost.sinkPaths, ghost.sinkBuckets, ghost.lastPutOptions, heap
 //@   ensures  reported: ghost.fail && !old(ghost.fail) ==> retErr != nil
 //@   ensures  write-reported: ghost.wfail && !old(ghost.wfail) ==> retErr != nil
 //
-//@ func ForWriteObject
+//@ func ForWriteObject(ctx, writeBucket, path, f, options) (retErr)
 //@   property C15
 //@   modifies ghost.fail, ghost.wfail, ghost.sinkPaths, ghost.sinkBuckets, ghost.lastPutOptions, heap
 //@   ensures  reported: ghost.fail && !old(ghost.fail) ==> retErr != nil
